@@ -1,4 +1,5 @@
 import AnsiModel.StrLike
+import AnsiModel.Match
 /-
   AnsiModel.Store — a small operation language over a store of named values, for statements about
   *histories*: `step : Store → Op → Store × Outcome`.
@@ -23,10 +24,6 @@ def put (σ : Store) (v : Var) (x : AStr) : Store :=
   { σ with vals := (v, x) :: σ.vals.filter (fun kv => kv.1 != v) }
 
 end Store
-
-/-- how many fresh identities an operation may consume (an upper bound is enough: ids only need to
-    be unused) -/
-def idBudget : Nat := 1000000
 
 inductive Op where
   | new     (dst : Var) (s : Str) (settings : List SArg)
@@ -70,10 +67,11 @@ inductive Outcome where
 
 namespace Store
 
-def bump (σ : Store) : Store := { σ with nid := σ.nid + idBudget }
+/-- after writing `x` the counter is moved past every identity `x` holds -/
+def bump (σ : Store) (x : AStr) : Store := { σ with nid := max σ.nid x.fmts.nextId }
 
-/-- write `x` to `v`, consuming a block of fresh ids -/
-def commit (σ : Store) (v : Var) (x : AStr) : Store × Outcome := ((σ.put v x).bump, .ok)
+/-- write `x` to `v` -/
+def commit (σ : Store) (v : Var) (x : AStr) : Store × Outcome := ((σ.put v x).bump x, .ok)
 
 def withVal (σ : Store) (v : Var) (k : AStr → Store × Outcome) : Store × Outcome :=
   match σ.get? v with
